@@ -143,6 +143,7 @@ def shard_main(ctx):
         rnd = random.Random((ctx.seed * 1000 + ctx.shard) * 100003 + i + 77)
         naming = ["distinct", "identical", "reuse", "arglike"][i % 4]
         g = Gen(rnd, naming=naming, method_form=[0.0, 0.5][(i // 4) % 2], hostile_sel=0.5, pack=0.4)
+        g.odd_stage_functions = i % 2 == 0
         if i % 8 == 7:
             # C02's targeted re-use families, with a hostile selector spliced in where a projection of the package is taken
             text = c02.targeted_capture(rnd)
